@@ -213,7 +213,7 @@ func (w *World) blockWriteKeys(b *ssa.BasicBlock, out map[string]bool) {
 		case *ssa.Store:
 			w.addrKeys(i.Addr, out)
 		case *ssa.MapUpdate:
-			out["M:"+typeName(i.Map.Type())] = true
+			mapWriteKeys(i.Map.Type(), out)
 		case ssa.CallInstruction:
 			cc := i.Common()
 			if bi, ok := cc.Value.(*ssa.Builtin); ok {
@@ -227,7 +227,7 @@ func (w *World) blockWriteKeys(b *ssa.BasicBlock, out map[string]bool) {
 						}
 					}
 				case "delete":
-					out["M:"+typeName(cc.Args[0].Type())] = true
+					mapWriteKeys(cc.Args[0].Type(), out)
 				}
 				continue
 			}
@@ -242,6 +242,18 @@ func (w *World) blockWriteKeys(b *ssa.BasicBlock, out map[string]bool) {
 				}
 			}
 		}
+	}
+}
+
+func mapWriteKeys(t types.Type, out map[string]bool) {
+	mt, ok := t.Underlying().(*types.Map)
+	if !ok {
+		return
+	}
+	out[mapKeyOf(t)+".has"] = true
+	defer func() { recover() }()
+	for _, c := range compsOf(mt.Elem()) {
+		out[mapKeyOf(t)+".val"+c.Suffix] = true
 	}
 }
 
